@@ -6,6 +6,19 @@ HERE = os.path.dirname(os.path.dirname(os.path.abspath(__file__)))
 PROPS = [json.loads(l)['id'] for l in open(os.path.join(HERE, 'properties.jsonl'))]
 
 CHECKS = {
+ 'C11': dict(category='proof', design_ref='DESIGN.md section 4 (C11)',
+    text='file.to_file is under an effect-order contract discharged on every control path of the real function, enumerated from '
+         'its ast with EVERY call allowed to raise (which covers a fault at the k-th write for all k without enumerating k): any '
+         'event that can create, truncate, remove or rename a file by path happens only after the encoder (fmt.to_file) returned '
+         'normally, and the encoder is handed the anonymous temporary file. The frame of the encoders -- no path-modifying '
+         'primitive, no open() for writing, writes only to outstr -- is established by a syntactic effect scan over everything '
+         'reachable (by name) from P8Formatter.to_file / P8PNGFormatter.to_file, and the CLI callers are shown to reach the '
+         'destination only through file.to_file.',
+    note='Path-insensitive over-approximation (both branches, loops 0/1/2 times). Assumed: an anonymous temporary file is not the '
+         'destination; rb-opens and os.path.exists do not modify; pypng writes only to its stream; a failure of the final copy is '
+         'outside the statement. A bounded native fault-injection run (every write index, three exception kinds, failing writer, '
+         'unparsable Lua) doubles as replay.',
+    technique='contract-based verification of an effect-order contract: exhaustive control-path enumeration of the real ast with exceptional edges + syntactic frame scan'),
  'C02': dict(category='proof', design_ref='DESIGN.md section 4 (C02)',
     text='MinifyNameFactory._name_for_id is proved (real recursive body; its own contract is the induction hypothesis of the '
          'recursive call, with a decreasing-argument obligation) to return the base-26 spelling B26(id) over the real NAME_CHARS; '
